@@ -662,6 +662,14 @@ impl Context {
         self.props.extra.get(key).map(|v| v.as_str())
     }
 
+    /// True once the client has been told that the tunnel is established.
+    pub fn was_connected(&self) -> bool {
+        self.props
+            .state
+            .iter()
+            .any(|s| s.state == ContextState::Connected)
+    }
+
     // Get state of the context.
     pub fn state(&self) -> ContextState {
         self.props.state.last().unwrap().state
